@@ -277,6 +277,11 @@ __attribute__((noinline)) void vfd_set_state( const std::uint32_t* f )
 #endif
 }
 
+__attribute__((noinline)) void vfd_set_disc_reason( unsigned reason )
+{
+    ll.disconnecting_reason_ = static_cast< std::uint8_t >( reason );
+}
+
 __attribute__((noinline)) void vfd_get_state( std::uint32_t* f )
 {
     f[ VFD_STATE ]              = static_cast< std::uint32_t >( ll.state_ );
